@@ -162,6 +162,7 @@ type Enc struct {
 	lockCount int
 	usesLocks bool
 	pureDepth   int
+	atCount     map[string]int
 	inlineDepth int
 	inlineSeq   int
 	inlineUsed  int
@@ -213,6 +214,7 @@ func (e *Enc) reset() {
 	e.knownTypeIDs = map[int]types.Type{}
 	e.implDecl = map[string]bool{}
 	e.invObjs = nil
+	e.atCount = map[string]int{}
 	e.lockCount = 0
 	e.inlineDepth, e.inlineSeq, e.inlineUsed, e.prefix = 0, 0, 0, ""
 }
